@@ -7,6 +7,13 @@ ALL = ["C%02d" % i for i in range(1, 21)]
 
 # id -> (level category, technique, level text, level note, design ref)
 CHECKS = {
+    "C18": (
+        "model_checking",
+        "breadth-first search over histories of {edit grammar, edit lexer, change one builder option, build} executed on the real builders (one child process per build), with canonical-state de-duplication and a clean-build differential oracle",
+        "State = grammar version (6: two token sets, other productions, conflicts, syntax error, warning), lexer version (4: two valid, invalid, token missing), eleven builder options, contents and logical modification times of the two generated files. All histories of up to 4 events (thorough 6, with the edit-in-the-same-tick deviation) and up to 3 (4) builds are explored breadth-first, de-duplicated on the canonical state, each build executed by the real CTParserBuilder / CTLexerBuilder in its own process (both as two separate steps and as the lexer builder driving the parser builder). After every build: outcome and generated files (timestamps blanked) must equal those of a clean build of the same sources and settings in an empty directory; when the clean build fails nothing of an earlier version may be left; regenerated() must be false and the file untouched exactly when neither source nor settings changed since the last successful build; an identical lexer output must not be rewritten.",
+        "Modification times are logical and set by the harness (the builders only read them); clocks running backwards are out of scope.",
+        "DESIGN.md 3/C18",
+    ),
     "C14": (
         "model_checking",
         "bounded-exhaustive enumeration of specifications x storage widths x integer encodings; serialise + reconstitute exactly as generated parsers do; complete public query dump and all short parses compared",
